@@ -139,6 +139,25 @@ func genC03(r *Rng, tier string, emit func(Case)) {
 		syms := specEncode5(pre, to5(append([]byte{ver}, r.Bytes(hl)...), 0))
 		valid := pre + ":" + symsToString(syms)
 		e("cdec", "valid", hs(valid))
+		if i%25 == 0 {
+			// shapes of the prefix part: missing, empty, containing digits, upper case, two separators
+			pay := symsToString(syms)
+			for _, pf := range []string{"bitc0in", "1", "a1", "9bch", ""} {
+				cs := specEncode5(pf, to5(append([]byte{ver}, r.Bytes(hl)...), 0))
+				e("cdec", "prefixshape", hs(pf+":"+symsToString(cs)))
+			}
+			e("cdec", "prefixshape", hs(pay))
+			e("cdec", "prefixshape", hs(":"+pay))
+			e("cdec", "prefixshape", hs(pre+"::"+pay))
+			e("cdec", "prefixshape", hs(strings.ToUpper(pre)+":"+pay))
+			e("cdec", "prefixshape", hs(pre+":"))
+			e("cdec", "prefixshape", hs("qpzry"+strings.Map(func(c rune) rune {
+				if c >= '0' && c <= '9' {
+					return 'q'
+				}
+				return c
+			}, pay))) // letters only, no separator
+		}
 		// 1..5 substitutions in the payload part (incl. checksum symbols)
 		w := 1 + r.Intn(5)
 		m := append([]byte{}, syms...)
